@@ -89,6 +89,15 @@ def register(reg, ctx):
                                                                                  'label': 'Constant3D', 'doc': 'raysect Constant3D'}}),
                      sorts={"value": "real"})
 
+    # reported parameters track what was set (statement: "... and reported parameters equal those of a freshly constructed object"):
+    # each setter stores the value in the attribute ITS getter returns and leaves the backing attributes of the other getters alone
+    ACC_EXT = dict(NOTIFY, **SEDF)
+    ACC_EXT['Constant3D()'] = {'kind': 'logged', 'result': 'ref:Constant3D', 'alloc': True, 'label': 'Constant3D', 'doc': 'raysect Constant3D'}
+    for cls in ("UniformEnergyDensity", "ConstantBivariateGaussian", "TrivariateGaussian", "GaussianBeamAxisymmetric"):
+        ext = dict(ACC_EXT)
+        ext['%s._function_changed' % cls] = logged_self('_function_changed')
+        _common.accessor_contracts(reg, PROP, tree, MP, cls, externals=ext)
+
     def fc(cls, dist_cls, dist_args, norm):
         def post(P):
             out = []
@@ -136,7 +145,7 @@ def register(reg, ctx):
                "stddev_x": "real", "stddev_y": "real", "polarization": "ref:Vector3D!"},
         ensures=[("establishes_sigma_z_is_c_tau", "self._stddev_z == self._pulse_length * SPEED_OF_LIGHT and self._pulse_length == pulse_length"),
                  ("parameters_stored", "self._pulse_energy == pulse_energy and self._stddev_x == stddev_x and self._stddev_y == stddev_y "
-                  "and self._mean_z == mean_z")])
+                  "and self._mean_z == mean_z and self._laser_radius == laser_radius and self._laser_length == laser_length")])
 
     # Laser.laser_profile setter: afterwards the laser's configure_geometry IS registered on the new profile's notifier - the registration is
     # made, and no later statement of the setter takes it off again (also when the new profile is the one already attached), and the
@@ -185,6 +194,13 @@ def register(reg, ctx):
         _common.constructor_contract(reg, PROP, tree, file, cls, "_update_cache",
                                      sorts={"min_wavelength": "real", "max_wavelength": "real", "bins": "int", "mean": "real", "stddev": "real"},
                                      externals={'Function1D.__init__': {'kind': 'pure', 'result': 'none', 'doc': 'raysect Function1D.__init__'}})
+    for cls, file in (("ConstantSpectrum", MS), ("GaussianSpectrum", MS)):
+        _common.accessor_contracts(reg, PROP, tree, file, cls, skip=("bins",),
+                                   externals={'%s._update_cache' % c: logged_self('_update_cache') for c in ("LaserSpectrum", "ConstantSpectrum", "GaussianSpectrum")})
+        _common.accessor_contracts(reg, PROP, tree, file, cls, skip=("min_wavelength", "max_wavelength", "mean", "stddev"), value_sort="int",
+                                   externals={'%s._update_cache' % c: logged_self('_update_cache') for c in ("LaserSpectrum", "ConstantSpectrum", "GaussianSpectrum")})
+    for cls in ("ConstantBivariateGaussian3D", "TrivariateGaussian3D", "GaussianBeamModel"):
+        _common.accessor_contracts(reg, PROP, tree, MF, cls, externals={'%s._cache_constants' % cls: logged_self('_cache_constants')})
     for acc, attr in (("get_min_wavelenth", "_min_wavelength"), ("get_max_wavelenth", "_max_wavelength"), ("get_spectral_bins", "_bins"),
                       ("get_delta_wavelength", "_delta_wavelength")):
         reg.contract(LS, "LaserSpectrum." + acc, PROP, ensures=[("returns_named_attribute", "result == self.%s" % attr)], modifies=[])
@@ -258,7 +274,32 @@ def native_replay(ctx, o):
     """Setter coherence and accessor obligations: mutate a real object, compare with a freshly constructed one."""
     from replaylib.native import run_native
     scen = None
-    if 'ConstantBivariateGaussian.pulse_energy' in o.name:
+    if ':stores]' in o.name and '.profile.' in o.name:
+        # accessor obligations of the profile classes: set every scalar parameter in turn on a default object, compare all reported
+        # parameters and the segment geometry with an object constructed with those values
+        scen = '''
+from cherab.core.model.laser import UniformEnergyDensity, ConstantBivariateGaussian, TrivariateGaussian, GaussianBeamAxisymmetric
+CASES = {UniformEnergyDensity: dict(energy_density=2.0, laser_length=3.0, laser_radius=0.25),
+         ConstantBivariateGaussian: dict(pulse_energy=2.0, pulse_length=3.0, stddev_x=0.02, stddev_y=0.03, laser_length=3.0, laser_radius=0.25),
+         TrivariateGaussian: dict(pulse_energy=2.0, pulse_length=3.0, mean_z=0.5, stddev_x=0.02, stddev_y=0.03, laser_length=3.0, laser_radius=0.25),
+         GaussianBeamAxisymmetric: dict(pulse_energy=2.0, pulse_length=3.0, waist_z=0.5, stddev_waist=0.02, laser_wavelength=900.0, laser_length=3.0, laser_radius=0.25)}
+def desc(p):
+    return [(type(g).__name__, round(g.height, 9), round(g.radius, 9)) for g in p.generate_geometry()]
+bad = []
+for cls, kw in CASES.items():
+    for order in (sorted(kw), sorted(kw, reverse=True)):
+        a = cls()
+        for k in order:
+            setattr(a, k, kw[k])
+        b = cls(**kw)
+        for k in kw:
+            if getattr(a, k) != getattr(b, k):
+                bad.append({"class": cls.__name__, "assigned_in_order": order, "parameter": k, "after_setters": getattr(a, k), "fresh_object": getattr(b, k)})
+        if desc(a) != desc(b):
+            bad.append({"class": cls.__name__, "assigned_in_order": order, "geometry_after_setters": desc(a)[:2], "geometry_fresh": desc(b)[:2]})
+print(json.dumps({"bad": bad[:4], "equal": not bad}))
+'''
+    elif 'ConstantBivariateGaussian.pulse_energy' in o.name:
         scen = '''
 from cherab.core.model.laser import ConstantBivariateGaussian
 a = ConstantBivariateGaussian(pulse_energy=1.0, pulse_length=1e-9, stddev_x=0.01, stddev_y=0.01)
